@@ -518,6 +518,53 @@ func (g *gen) sessClose() {
 			return true
 		})
 	}
+	// Serve reads the input context in force at every turn of its loop: the read
+	// (s.inputContext() or s.in.ctx) sits inside the for statement of Serve and
+	// nowhere before it.
+	inLoop, outside := false, false
+	for _, fd := range fds {
+		if scFuncName(fd) != "Session.Serve" {
+			continue
+		}
+		var loops []*ast.ForStmt
+		ast.Inspect(fd.Body, func(m ast.Node) bool {
+			if fs, is := m.(*ast.ForStmt); is {
+				loops = append(loops, fs)
+			}
+			return true
+		})
+		isCtxRead := func(m ast.Node) bool {
+			switch x := m.(type) {
+			case *ast.CallExpr:
+				if c := scSelChain(x.Fun); c != nil && c[len(c)-1] == "inputContext" {
+					return true
+				}
+			case *ast.SelectorExpr:
+				if c := scSelChain(x); c != nil && scEndsWith(c, "in", "ctx") {
+					return true
+				}
+			}
+			return false
+		}
+		ast.Inspect(fd.Body, func(m ast.Node) bool {
+			if m == nil || !isCtxRead(m) {
+				return true
+			}
+			in := false
+			for _, l := range loops {
+				if m.Pos() >= l.Body.Pos() && m.End() <= l.Body.End() {
+					in = true
+				}
+			}
+			if in {
+				inLoop = true
+			} else {
+				outside = true
+			}
+			return true
+		})
+	}
+	g.p("Definition sc_serve_reads_context_every_turn : bool := %v.\n", inLoop && !outside)
 	g.p("Definition sc_setclosedeadline_fresh_context : bool := %v.\n", fresh && nctx > 0)
 	g.p("Definition sc_setclosedeadline_cancels_previous : bool := %v.\n", savesOld && callsOld)
 	g.p("Definition sc_setclosedeadline_zero_is_no_deadline : bool := %v.\n", zero)
